@@ -483,6 +483,25 @@ def m_copy_from_slice(c):
     if d.len.is_const() and d.len.c <= 64 and d.origin[0] == "place":
         for i in range(d.len.c):
             c.I.write_byte(c.st, d.origin, d.off + i, c.I.read_byte(c.st, s.origin, s.off + i, s.mut))
+    elif c.I.opts.get("split_copy_len") and d.origin[0] == "place" and d.off.is_const():
+        # (comparison runs only) a small symbolic length is enumerated so that contents stay tracked
+        rg = c.I.int_range(c.st, d.len, cap=64)
+        if rg is not None and rg[1] - rg[0] <= 48:
+            outs = []
+            for n in range(rg[0], rg[1] + 1):
+                s2 = c.st.fork()
+                try:
+                    s2.add_ge0(d.len - n)
+                    s2.add_ge0(Lin.const(n) - d.len)
+                    if not s2.feasible(list(d.len.atoms())):
+                        continue
+                except Infeasible:
+                    continue
+                for i in range(n):
+                    c.I.write_byte(s2, d.origin, d.off + i, c.I.read_byte(s2, s.origin, s.off + i, s.mut))
+                outs.extend(c.ret_k(s2, VTuple(())))
+            return outs
+        c.I.havoc_region(c.st, d)
     else:
         c.I.havoc_region(c.st, d)
     return c.ret(VTuple(()))
@@ -618,7 +637,7 @@ def m_to_bytes(c):
             c.I.add_def_facts(c.st, x)
             lo, hi = static_bounds(x)
             if hi is None or hi > 255 or lo is None or lo < 0:
-                x = c.I.bitand(x, Lin.const(255), ty)
+                x = c.I.bitand(x, Lin.const(255), ty, c.st)
                 c.I.add_def_facts(c.st, x)
             out.append(VInt(x))
         return c.ret(VArray(tuple(out), n, None, "u8"))
@@ -656,7 +675,7 @@ def m_to_be(c):
             x = c.I.int_binop(c.st, "Shr", v.lin, Lin.const(8 * i), ty) if i else v.lin
             lo, hi = static_bounds(x)
             if hi is None or hi > 255:
-                x = c.I.bitand(x, Lin.const(255), ty)
+                x = c.I.bitand(x, Lin.const(255), ty, c.st)
             r = r + x.scale(1 << (8 * (n - 1 - i)))
         return c.ret(VInt(r))
     return c.ret(c.fresh())
@@ -1217,6 +1236,8 @@ def m_into(c):
         body = c.I.from_impl_index().get((su, st))
         if body is not None:
             return c.I.call_body(c.st, body, [v], c.dty, c.ret_k, c.site)
+        if su.startswith("arrayvec::") and isinstance(v, VArray):
+            return m_av_from(c)
         if su.startswith("core::net::") or st.startswith("core::net::"):
             return c.ret(c.fresh())
     return c.ret(c.fresh())
@@ -1286,7 +1307,10 @@ def vec_store(c, r, v, st=None):
 def m_av_new(c):
     v = c.I.materialize(c.st, c.dty, ("avnew", fresh_id()))
     if isinstance(v, VVec):
-        return c.ret(VVec("arrayvec", Lin.const(0), v.cap, v.key, v.elems))
+        data = None
+        if v.cap.is_const() and v.cap.c <= 64 and v.elems == "u8":
+            data = (None,) * v.cap.c
+        return c.ret(VVec("arrayvec", Lin.const(0), v.cap, v.key, v.elems, data))
     return c.ret(v)
 
 
@@ -1294,8 +1318,27 @@ def m_av_new(c):
 def m_av_from(c):
     v = c.I.materialize(c.st, c.dty, ("avfrom", fresh_id()))
     if isinstance(v, VVec):
-        return c.ret(VVec("arrayvec", v.cap, v.cap, v.key, v.elems))
+        src = c.args[0]
+        data = None
+        if isinstance(src, VArray) and src.elems is not None and v.cap.is_const() and len(src.elems) == v.cap.c <= 64:
+            data = tuple(src.elems)
+        return c.ret(VVec("arrayvec", v.cap, v.cap, v.key, v.elems, data))
     return c.ret(v)
+
+
+def av_put(v, pos, vals):
+    """data of ArrayVec v after storing vals at constant position pos (None when untracked)"""
+    if v.data is None or pos is None:
+        return None
+    d = list(v.data)
+    for i, x in enumerate(vals):
+        if pos + i < len(d):
+            d[pos + i] = x
+    return tuple(d)
+
+
+def av_pos(v):
+    return v.len.c if v.len.is_const() else None
 
 
 @M.reg("arrayvec::ArrayVec::<T, CAP>::len", "alloc::vec::Vec::<T, A>::len")
@@ -1347,7 +1390,7 @@ def m_av_push_unchecked(c):
     g = v.cap - v.len - 1
     p = c.st.entails(g)
     c.oblige("push", "push_unchecked: len < CAP", p, "" if p else "need %s>=0; facts: %s" % (show_lin(g), c.I.show_facts(c.st, g)))
-    vec_store(c, r, VVec(v.kind, v.len + 1, v.cap, v.key, v.elems))
+    vec_store(c, r, VVec(v.kind, v.len + 1, v.cap, v.key, v.elems, av_put(v, av_pos(v), [c.args[1]])))
     return c.ret(VTuple(()))
 
 
@@ -1361,7 +1404,7 @@ def m_av_push(c):
     p = c.st.entails(g)
     c.oblige("panic", "ArrayVec::push: len < CAP", p, "" if p else "need %s>=0" % show_lin(g))
     c.st.add_ge0(g)
-    vec_store(c, r, VVec(v.kind, v.len + 1, v.cap, v.key, v.elems))
+    vec_store(c, r, VVec(v.kind, v.len + 1, v.cap, v.key, v.elems, av_put(v, av_pos(v), [c.args[1]])))
     return c.ret(VTuple(()))
 
 
@@ -1372,7 +1415,7 @@ def m_av_try_push(c):
         return c.ret(c.fresh())
 
     def okv(s):
-        vec_store(c, r, VVec(v.kind, v.len + 1, v.cap, v.key, v.elems), s)
+        vec_store(c, r, VVec(v.kind, v.len + 1, v.cap, v.key, v.elems, av_put(v, av_pos(v), [c.args[1]])), s)
         return ok(c.I, VTuple(()), c.dty)
     return fork2(c, f_simplify(("ge", v.cap - v.len - 1)), okv,
                  lambda s: err(c.I, VOpaque(None, ("cap", fresh_id())), c.dty))
@@ -1389,7 +1432,7 @@ def m_set_len(c):
     p = c.st.entails(g)
     c.oblige("setlen", "set_len: new_len <= capacity", p,
              "" if p else "need %s>=0; facts: %s" % (show_lin(g), c.I.show_facts(c.st, g)), trivial=g.is_const())
-    vec_store(c, r, VVec(v.kind, n.lin, v.cap, v.key, v.elems))
+    vec_store(c, r, VVec(v.kind, n.lin, v.cap, v.key, v.elems, v.data))
     return c.ret(VTuple(()))
 
 
@@ -1403,7 +1446,10 @@ def m_av_try_extend(c):
         return c.ret(c.fresh())
 
     def okv(st):
-        vec_store(c, r, VVec(v.kind, v.len + s.len, v.cap, v.key, v.elems), st)
+        data = None
+        if v.data is not None and av_pos(v) is not None and s.len.is_const() and s.len.c <= 64:
+            data = av_put(v, av_pos(v), c.I.region_bytes(st, s, s.len.c))
+        vec_store(c, r, VVec(v.kind, v.len + s.len, v.cap, v.key, v.elems, data), st)
         return ok(c.I, VTuple(()), c.dty)
     return fork2(c, f_simplify(("ge", v.cap - v.len - s.len)), okv,
                  lambda st: err(c.I, VOpaque(None, ("cap", fresh_id())), c.dty))
@@ -1431,7 +1477,17 @@ def m_av_extend(c):
     p = c.st.entails(g)
     c.oblige("panic", "ArrayVec::extend fits capacity", p, "" if p else "need %s>=0; facts: %s" % (show_lin(g), c.I.show_facts(c.st, g)))
     c.st.add_ge0(g)
-    vec_store(c, r, VVec(v.kind, v.len + n, v.cap, v.key, v.elems))
+    data = None
+    if v.data is not None and av_pos(v) is not None and n.is_const() and n.c <= 64:
+        if isinstance(it, VArray) and it.elems is not None:
+            data = av_put(v, av_pos(v), list(it.elems))
+        else:
+            s_ = as_region(c.I, c.st, it)
+            if s_ is None and isinstance(it, VIter) and it.kind == "slice":
+                s_ = it.d["r"]
+            if s_ is not None:
+                data = av_put(v, av_pos(v), c.I.region_bytes(c.st, s_, n.c))
+    vec_store(c, r, VVec(v.kind, v.len + n, v.cap, v.key, v.elems, data))
     return c.ret(VTuple(()))
 
 
